@@ -12,7 +12,9 @@ Executed on real SQLite (spy engine, file database, independent raw read-back):
            objects, string names, composite, partial (index_where), expression, or
            omitted; 1-2 clauses per statement (2.1 multi-clause); set_ keyed by name or
            Column with literals, ``excluded.x``, ``t.x + 1``, ``t.v || '|' || excluded.v``,
-           ``t.n + excluded.n`` and per-row ``bindparam()`` values; optional ``where=``.
+           ``t.n + excluded.n`` and per-row ``bindparam()`` values; optional ``where=`` built
+           from literals, ``excluded`` or per-row ``bindparam()``s (alone or mixed with bound
+           SET values): each parameter set is updated / skipped by ITS OWN values.
   families every statement is, with probability 1/2, a same-shaped *sibling* of the previous one
            on the same table and engine (shared compiled cache): identical form, targets and
            actions, differing in exactly one WHERE literal, WHERE expression, SET literal or SET
@@ -58,7 +60,7 @@ META = {
     "exhaustive": {"quick": False, "thorough": False},
     "require": ["rows_conflicted", "rows_updated", "rows_skipped", "rows_inserted", "returning_rows_checked",
                 "mutual_conflicts", "batches_permuted", "fake_set_values_checked", "orm_objects_checked",
-                "uncovered_conflicts_raised", "bound_set_rows", "family_siblings"],
+                "uncovered_conflicts_raised", "bound_set_rows", "bound_where_rows", "family_siblings"],
     "assumptions": ["reference model of SQLite UPSERT semantics for single-rule conflicts (calibrated: silent on the unchanged tree)"],
 }
 
@@ -154,7 +156,13 @@ WHERE_OPTIONS = {
     "w_is": (lambda sa, t, ex, K: t.c.w == K, lambda e, p, K: e["w"] == K, "w"),
     "w_isnt": (lambda sa, t, ex, K: t.c.w != K, lambda e, p, K: e["w"] != K, "w"),
     "and": (lambda sa, t, ex, K: sa.and_(t.c.n < K, ex.v != t.c.v), lambda e, p, K: e["n"] < K and p["v"] != e["v"], "int"),
+    # per-row bound parameters inside the DO UPDATE WHERE: every parameter set decides for itself
+    "n_lt_bind": (lambda sa, t, ex, K: t.c.n < sa.bindparam("bp_wn"), lambda e, p, K: e["n"] < p["bp_wn"], None),
+    "w_is_bind": (lambda sa, t, ex, K: t.c.w == sa.bindparam("bp_ww"), lambda e, p, K: e["w"] == p["bp_ww"], None),
+    "and_bind": (lambda sa, t, ex, K: sa.and_(ex.n + sa.bindparam("bp_wn") > t.c.n, t.c.w != sa.bindparam("bp_ww")),
+                 lambda e, p, K: p["n"] + p["bp_wn"] > e["n"] and e["w"] != p["bp_ww"], None),
 }
+WHERE_BINDS = {"n_lt_bind": ["bp_wn"], "w_is_bind": ["bp_ww"], "and_bind": ["bp_wn", "bp_ww"]}
 
 
 def draw_literal(rng, kind, not_equal=None):
@@ -348,6 +356,15 @@ def drive(ctx, sa, orm, sqlite_dialect, rng, eng, path, t, cls, perm, ps, k):
         return {"k": 1000 + u, "a": u % 3, "b": f"b{u}", "e": f"e{u}", "flag": rng.choice([1, 1, 0]),
                 "s": f"S{u}x", "v": f"v{ctx.shard}.{k}.{u}", "n": rng.randint(0, 4), "x": f"xv{u}"}
 
+    def bind_value(b):
+        if b == "bp_n":
+            return 500 + fresh()
+        if b == "bp_wn":
+            return rng.randint(0, 6)
+        if b == "bp_ww":
+            return rng.choice(["w0", "wx", "WL"])
+        return f"B{fresh()}"
+
     def to_prop(r):
         """the row SQLite will see as ``excluded``: defaults applied, bound x value wrapped"""
         prop = dict(r, ou=None, id=None)
@@ -404,6 +421,7 @@ def drive(ctx, sa, orm, sqlite_dialect, rng, eng, path, t, cls, perm, ps, k):
         clauses = []
         cdesc = []
         all_binds = []
+        where_binds = []
         appliers = []
         for cl in spec_clauses:
             tk = cl["tk"]
@@ -428,6 +446,9 @@ def drive(ctx, sa, orm, sqlite_dialect, rng, eng, path, t, cls, perm, ps, k):
                           "varied": cl.get("varied"),
                           "target": "columns" if any(not isinstance(x, str) for x in tk.get("index_elements", [])) else "names"})
             all_binds += ["bp_" + c for c, nm, L in sspec["cols"] if nm == "bind"]
+            where_binds += WHERE_BINDS.get(wname, [])
+        where_binds = sorted(set(where_binds))
+        all_binds = sorted(set(all_binds) | set(where_binds))
         if form == "orm_bulk" and all_binds:
             form = "many_ret"   # extra (non-attribute) keys cannot travel through an ORM bulk insert
         prev_clauses, this_clauses = (this_clauses if si else None), clauses
@@ -481,7 +502,7 @@ def drive(ctx, sa, orm, sqlite_dialect, rng, eng, path, t, cls, perm, ps, k):
             else:
                 pattern = "fresh"
             for b in all_binds:
-                r[b] = 500 + fresh() if b == "bp_n" else f"B{fresh()}"
+                r[b] = bind_value(b)
             # evaluate on the shadow model so later rows can conflict with this one
             prop = to_prop(r)
             try:
@@ -494,7 +515,7 @@ def drive(ctx, sa, orm, sqlite_dialect, rng, eng, path, t, cls, perm, ps, k):
                 if not include_n:
                     del r["n"]
                 for b in all_binds:
-                    r[b] = 500 + fresh() if b == "bp_n" else f"B{fresh()}"
+                    r[b] = bind_value(b)
                 prop = to_prop(r)
                 outcome, snap = shadow.upsert(prop, clauses)
                 pattern = "fresh"
@@ -595,7 +616,21 @@ def drive(ctx, sa, orm, sqlite_dialect, rng, eng, path, t, cls, perm, ps, k):
             for i in sorted(set(stored) | set(want)):
                 if stored.get(i) != want.get(i):
                     diff.append({"id": i, "stored": stored.get(i), "model": want.get(i)})
-            mech = classify(diff, props, all_binds, outcomes)
+            mech = classify(diff, props, [b for b in all_binds if b not in where_binds], outcomes)
+            if where_binds and len(props) > 1:
+                # does the table look as if every row of a batch had been judged with the WHERE
+                # parameters of the batch's FIRST row?
+                alt = Model()
+                alt.rows = {i: dict(r) for i, r in before.items()}
+                size = page if form in ("many_ret", "many_ret_sorted") else len(props)
+                try:
+                    for ix, r in enumerate(props):
+                        head = props[ix - ix % size]
+                        alt.upsert(to_prop(dict(r, **{b: head[b] for b in where_binds})), clauses)
+                    if {i: {c: r[c] for c in COLS} for i, r in alt.rows.items()} == stored:
+                        mech = "upsert-where-per-row-bind-batched-with-first-row"
+                except (AssertionError, KeyError):
+                    pass
             if family and prev_clauses is not None:
                 # does the table look as if the *previous sibling's* clauses had been executed?
                 alt = Model()
@@ -618,6 +653,8 @@ def drive(ctx, sa, orm, sqlite_dialect, rng, eng, path, t, cls, perm, ps, k):
                 ctx.count("mutual_conflicts")
         if all_binds:
             ctx.count("bound_set_rows", sum(1 for o, _ in outcomes if o == "upd"))
+        if where_binds and len(props) > 1:
+            ctx.count("bound_where_rows", sum(1 for o, _ in outcomes if o != "ins"))
 
         # ---- RETURNING == affected rows
         affected = [{c: snap[c] for c in COLS} for o, snap in outcomes if o in ("ins", "upd")]
